@@ -251,7 +251,7 @@ func sliceStep(v any, start, stop, step int) any {
 				s = s[sz:]
 				b.WriteRune(r)
 
-				for j := 1; j < step; j++ {
+				for j := 1; j < step && len(s) > 0; j++ {
 					_, sz = utf8.DecodeRuneInString(s)
 					s = s[sz:]
 				}
@@ -267,7 +267,7 @@ func sliceStep(v any, start, stop, step int) any {
 				s = s[:len(s)-sz]
 				b.WriteRune(r)
 
-				for j := -1; j > step; j-- {
+				for j := -1; j > step && len(s) > 0; j-- {
 					_, sz = utf8.DecodeLastRuneInString(s)
 					s = s[:len(s)-sz]
 				}
